@@ -13,6 +13,7 @@ string reader against Ser.cLoad on generated tokens (escapes, \\uXXXX, surrogate
 import collections
 import json
 import random
+import struct
 
 from lib import common as C
 
@@ -46,8 +47,17 @@ RULE = ("generated: a case = (kind, layout, #inserts per rank, flags, seed); fla
         "string token needing an escape or a non-ASCII byte, or an equal-key run, or a rank owning nothing; reader: generated JSON string tokens")
 
 LAYOUTS = [(1, 1), (1, 2), (1, 3), (1, 4), (2, 2)]
-KINDS = ["map", "multimap", "set", "multiset", "bag", "cset", "mapcount"]
-DISC = {"map": "tree", "multimap": "tree", "set": "tree", "multiset": "tree", "bag": "seq", "cset": "tree", "mapcount": "tree"}
+KINDS = ["map", "multimap", "set", "multiset", "bag", "cset", "mapcount", "bagd", "bagpd", "mapd"]
+DISC = {"map": "tree", "multimap": "tree", "set": "tree", "multiset": "tree", "bag": "seq", "cset": "tree", "mapcount": "tree",
+        "bagd": "seq", "bagpd": "seq", "mapd": "tree"}
+STRKEY = {"map", "multimap", "set", "multiset", "bag", "cset", "mapcount", "mapd"}    # kinds whose keys are strings
+STRVAL = {"map", "multimap"}                                                          # kinds whose values are strings
+BAGS = {"bag", "bagd", "bagpd"}
+BIG_LAYOUTS = [(3, 3), (2, 5), (1, 10), (1, 11)]                                       # 9, 10, 10, 11 ranks
+
+
+def dbits(x):
+    return struct.pack(">d", float(x))
 DV = b"d\"v\\\x01\xff"
 
 
@@ -71,12 +81,24 @@ def gen_cases(tier, seed):
                     if variant == 0:
                         flags = rnd.choice([0, 1]) | rnd.choice([0, 2])
                     elif variant == 1:
-                        flags = 1 | (16 if kind in ("map", "multimap", "mapcount") else 0) | 32 | rnd.choice([0, 8])
+                        flags = 1 | (16 if kind in ("map", "multimap", "mapcount", "mapd") else 0) | 32 | rnd.choice([0, 8])
                     else:
                         flags = rnd.choice([0, 1]) | 8 | rnd.choice([0, 2])
+                    if rnd.random() < 0.4:
+                        flags |= 1024          # the target has unflushed operations when deserialize is called
                     n = rnd.choice([0, 1, 3]) if rnd.random() < 0.25 else rnd.choice([8, 20, 45])
                     cases.append({"kind": kind, "nodes": nodes, "ppn": ppn, "n": n, "flags": flags, "seed": rnd.randrange(1, 10 ** 9),
                                   "sim_seed": rnd.randrange(1, 10 ** 6), "routing": rnd.choice(["NONE", "NR", "NLNR"]), "buffer_kb": rnd.choice([None, None, 1, 0])})
+    # 9, 10 and 11 ranks (file-name suffixes of different widths), every kind; and directed: unflushed operations on the target
+    for rep in range(1 if tier == "quick" else 6):
+        for i, kind in enumerate(KINDS):
+            for (nodes, ppn) in (BIG_LAYOUTS[1 + (i + rep) % 2], BIG_LAYOUTS[0 if (i + rep) % 2 else 3]):
+                cases.append({"kind": kind, "nodes": nodes, "ppn": ppn, "n": rnd.choice([3, 6]), "flags": rnd.choice([0, 1]) | rnd.choice([0, 2]) | rnd.choice([0, 1024]),
+                              "seed": rnd.randrange(1, 10 ** 9), "sim_seed": rnd.randrange(1, 10 ** 6), "routing": rnd.choice(["NONE", "NR", "NLNR"])})
+            nodes, ppn = rnd.choice(LAYOUTS)
+            cases.append({"kind": kind, "nodes": nodes, "ppn": ppn, "n": rnd.choice([4, 12]), "flags": 1024 | rnd.choice([0, 1]) | rnd.choice([0, 32]),
+                          "seed": rnd.randrange(1, 10 ** 9), "sim_seed": rnd.randrange(1, 10 ** 6), "routing": rnd.choice(["NONE", "NR", "NLNR"]),
+                          "buffer_kb": rnd.choice([None, 1, 0])})
     # reused prefix: X serialized to the prefix first, then a different Y (few keys on rank 0 only / empty / big after tiny),
     # optionally with files planted at rank indices beyond the communicator; fresh and pre-populated targets
     for rep in range(1 if tier == "quick" else 12):
@@ -133,6 +155,10 @@ def parse_run(kind, sr, ranks):
                 d["file"] = unhex(w[1])
             elif w[0] == "extra":
                 d["extra"] = w[1]
+            elif w[0] == "names":
+                d["names"] = [unhex(x) for x in w[1:]]
+            elif w[0] == "nofile":
+                d["nofile"] = True
             elif w[0] == "cursor-expected":
                 d["cursor"] = int(w[1])
         per.append(d)
@@ -142,7 +168,7 @@ def parse_run(kind, sr, ranks):
 def expected_content(kind, per):
     """what the container must hold given every insert issued before serialize (pending ones included)"""
     allins = [e for d in per for e in d["ins"]]
-    if kind in ("map", "mapcount"):
+    if kind in ("map", "mapcount", "mapd"):
         return collections.Counter(set(allins))                 # equal keys carry equal values by construction
     if kind == "set":
         return collections.Counter(set(allins))
@@ -181,10 +207,10 @@ def independent_parse(data):
     return doc, b
 
 
-def truncate_nul(e):
+def truncate_nul(e, kind):
     k, v = e
-    k2 = k.split(b"\0")[0]
-    v2 = v.split(b"\0")[0] if isinstance(v, bytes) else v
+    k2 = k.split(b"\0")[0] if kind in STRKEY else k
+    v2 = v.split(b"\0")[0] if (isinstance(v, bytes) and kind in STRVAL) else v
     return (k2, v2)
 
 
@@ -201,7 +227,7 @@ def check_case(res, case, sr, model_ok):
     got_a = collections.Counter(e for d in per for e in d["a"])
     got_b = collections.Counter(e for d in per for e in d["b"])
     feats = set()
-    has_nul = any(b"\0" in k or (isinstance(v, bytes) and b"\0" in v) for (k, v) in expect)
+    has_nul = any((kind in STRKEY and b"\0" in k) or (kind in STRVAL and isinstance(v, bytes) and b"\0" in v) for (k, v) in expect)
 
     # state of every rank's file right after serialize: ok / missing / unparsable
     fstat = {}
@@ -217,10 +243,26 @@ def check_case(res, case, sr, model_ok):
     badfiles = {r: st for r, st in fstat.items() if st != "ok"}
     stale_back = sorted(r for r, d in enumerate(per) if any(k.startswith(b"stale-") for (k, _) in d["b"]))
 
+    def pending_survived():
+        """is something the harness issued on the target right before deserialize among the surplus of the reloaded container?"""
+        exp_keys = {k for (k, _) in expect}
+        for (k, v) in (got_b - expect):
+            if kind in STRKEY and (k.startswith(b"old-pending") or v == b"STALE-VALUE" or (isinstance(v, int) and k in exp_keys)
+                                   or (kind == "mapd" and v == dbits(555.0))):
+                return True
+            if kind == "bagd" and 555.0 <= struct.unpack(">d", k)[0] < 2000.0 and struct.unpack(">d", k)[0] % 1 == 0:
+                return True
+            if kind == "bagpd" and k[:4] == struct.pack(">i", 555):
+                return True
+        return False
+
     def fail(what, sig, **kw):
         if has_nul:
             # is the difference exactly the NUL truncation the model predicts?
             sig = "c20-nul-truncation" if nul_explains else sig + "-with-nul"
+        elif (case["flags"] & 1024) and (sig.startswith("c20-reload") or sig == "c20-target-not-replaced") and pending_survived():
+            sig = "c20-target-pending-survived"
+            what += "; operations issued on the target right before deserialize (no barrier) are part of the reloaded container"
         elif stale_back and sig.startswith("c20-reload"):
             sig = "c20-stale-rank-file"
             what += f"; ranks {stale_back} reloaded keys of the container serialized to this prefix EARLIER (their file was not overwritten)"
@@ -233,7 +275,7 @@ def check_case(res, case, sr, model_ok):
     # does "cut every string at its first NUL, then rebuild" explain the reloaded content?  (computed from the ORIGINAL dumps)
     nul_explains = False
     if has_nul:
-        nul_explains = all(collections.Counter(truncate_nul(e) for e in d["a"]) == collections.Counter(d["b"]) for d in per)
+        nul_explains = all(collections.Counter(truncate_nul(e, kind) for e in d["a"]) == collections.Counter(d["b"]) for d in per)
 
     # ---------------- oracle
     if got_a != expect:
@@ -255,6 +297,12 @@ def check_case(res, case, sr, model_ok):
     # extra member
     if kind in ("map", "multimap"):
         want = hx(DV) if case["flags"] & 16 else "-"
+        for r, d in enumerate(per):
+            if d["extra"] != want:
+                fail(f"rank {r}: default value after reload {d['extra']} != {want}", "c20-default-value", rank=r)
+                break
+    if kind == "mapd":
+        want = hx(dbits(0.1 if case["flags"] & 16 else 0.0))
         for r, d in enumerate(per):
             if d["extra"] != want:
                 fail(f"rank {r}: default value after reload {d['extra']} != {want}", "c20-default-value", rank=r)
@@ -289,7 +337,13 @@ def check_case(res, case, sr, model_ok):
             doc, enc = independent_parse(data)
             names = list(doc.keys())
             items = doc["value0"]
-            if kind in ("set", "multiset", "bag"):
+            if kind == "bagd":
+                parsed = [(dbits(x), None) for x in items]
+            elif kind == "bagpd":
+                parsed = [(struct.pack(">i", x["first"]) + dbits(x["second"]), None) for x in items]
+            elif kind == "mapd":
+                parsed = [(enc(x["key"]), dbits(x["value"])) for x in items]
+            elif kind in ("set", "multiset", "bag"):
                 parsed = [(enc(x), None) for x in items]
             elif kind in ("cset", "mapcount"):
                 parsed = [(enc(x["key"]), int(x["value"])) for x in items]
@@ -308,8 +362,10 @@ def check_case(res, case, sr, model_ok):
                 ex = doc[names[1]]
                 if kind in ("map", "multimap"):
                     okx = enc(ex) == (DV if case["flags"] & 16 else b"")
-                elif kind == "bag":
+                elif kind in BAGS:
                     okx = ex == d["cursor"]
+                elif kind == "mapd":
+                    okx = dbits(ex) == dbits(0.1 if case["flags"] & 16 else 0.0)
                 elif kind == "mapcount":
                     okx = ex == (5 if case["flags"] & 16 else 0)
                 else:
@@ -322,8 +378,9 @@ def check_case(res, case, sr, model_ok):
         # (K2) raw tokens vs Ser.escape
         strs = []
         for (k, v) in d["a"]:
-            strs.append(k)
-            if isinstance(v, bytes):
+            if kind in STRKEY:
+                strs.append(k)
+            if kind in STRVAL:
                 strs.append(v)
         if kind in ("map", "multimap"):
             strs.append(DV if case["flags"] & 16 else b"")
@@ -343,6 +400,16 @@ def check_case(res, case, sr, model_ok):
             feats.add("equal-key-run")
         if any(isinstance(v, int) and v >= 2 ** 63 for (_, v) in d["a"]):
             feats.add("count>=2^63")
+    if model_ok and per and per[0].get("names") is not None:
+        # the set of file names under the prefix == Ser.fileNames (prefix ++ decimal rank), plus what the harness planted itself
+        pred = {unhex(x) for x in C.model("ser", ["fname %s %d" % (hx(b"img."), r) for r in range(ranks)])}
+        planted = {b"img." + str(r).encode() for r in range(ranks, 2 * ranks + 1)} if case["flags"] & 256 else set()
+        real = set(per[0]["names"])
+        if not (pred <= real and real - pred <= planted):
+            res.corr_failures.append({"relation": "names of the files written == Ser.fileNames prefix n (prefix ++ decimal rank, no padding)",
+                                      "what": f"missing {sorted(pred - real)[:3]}, unexpected {sorted(real - pred - planted)[:3]}", "case": cs})
+        if ranks >= 10:
+            feats.add("two-digit-ranks")
     if model_ok:
         flat = [s for (_, strs, _) in q_esc for s in strs]
         esc = C.model("ser", ["esc " + hx(s) for s in flat]) if flat else []
@@ -364,14 +431,16 @@ def check_case(res, case, sr, model_ok):
         for r, d in enumerate(per):
             elems = []
             for (k, v) in d["a"]:
-                lk = loaded.get(k, k)
-                lv = loaded.get(v, v) if isinstance(v, bytes) else v
+                lk = loaded.get(k, k) if kind in STRKEY else k
+                lv = loaded.get(v, v) if kind in STRVAL else v
                 elems.append(show_elem((lk if lk is not None else b"?", lv)))
             if kind in ("map", "multimap"):
                 dv = DV if case["flags"] & 16 else b""
                 extra = hx(loaded.get(dv, dv))
-            elif kind == "bag":
+            elif kind in BAGS:
                 extra = str(d["cursor"])
+            elif kind == "mapd":
+                extra = hx(dbits(0.1 if case["flags"] & 16 else 0.0))
             elif kind in ("cset", "mapcount"):
                 extra = "5" if (kind == "mapcount" and case["flags"] & 16) else "0"
             else:
@@ -388,7 +457,7 @@ def check_case(res, case, sr, model_ok):
             if pred != real:
                 res.corr_failures.append({"relation": "reloaded store (iteration order) == Ser.deserializeRank (Ser.serializeRank ..) / Ser.readAll (Ser.writeAll stale ..) with Ser.cLoad strings",
                                           "what": f"rank {r}", "case": dict(cs, rank=r, model=pred[:6], real=real[:6])})
-            if kind in ("map", "multimap") and d["extra"] != w[1]:
+            if kind in ("map", "multimap", "mapd") and d["extra"] != w[1]:
                 res.corr_failures.append({"relation": "default value after reload == image.extra", "what": f"rank {r}: real {d['extra']}, model {w[1]}",
                                           "case": dict(cs, rank=r)})
     res.evaluations += 1
@@ -398,6 +467,12 @@ def check_case(res, case, sr, model_ok):
     res.count("routing=%s" % case.get("routing", "NONE"))
     res.count("comm-buffer-kb=%s" % case.get("buffer_kb"))
     res.count("target-prepopulated" if case["flags"] & 1 else "target-empty")
+    res.count("ranks=%d" % ranks)
+    if case["flags"] & 1024:
+        res.count("target-has-pending-ops")
+        feats.add("target-pending")
+    if kind in ("bagd", "bagpd", "mapd") and any(per[r]["a"] for r in range(ranks)):
+        feats.add("floating-point")
     if case["flags"] & 128:
         res.count("reused-prefix")
         feats.add("reused-prefix" + ("+planted-higher-ranks" if case["flags"] & 256 else "") + ("+tiny-first" if case["flags"] & 512 else ""))
